@@ -128,7 +128,7 @@ m_queue_itr_t *m_queue_itr_new(const m_queue_t *q)
 V_REQUIRES((q == NULL || V_Q_OK(q)) && g_qit != NULL && V_RW_OK(g_qit, sizeof(struct _queue_itr)))
 V_ASSIGNS(g_qit->q, g_qit->idx, g_qit->removed)
 V_ENSURES(V_IMP(q == NULL || q->len == 0, V_RET == NULL))
-V_ENSURES(V_IMP(q != NULL && q->len > 0, __CPROVER_pointer_equals(V_RET, g_qit) && g_qit->q == q && g_qit->idx == 0 && !g_qit->removed))
+V_ENSURES(V_IMP(q != NULL && q->len > 0, __CPROVER_pointer_equals(V_RET, g_qit) && __CPROVER_pointer_equals(g_qit->q, (m_queue_t *)q) && g_qit->idx == 0 && !g_qit->removed))
 ;
 
 V_CONTRACT
